@@ -87,6 +87,8 @@ class _KeyModel:
                 continue
             if n.kind == 'test':
                 v = _is_level_test(f, n.ast)
+                if v is None:
+                    v = self._got_test(f, n.ast)
                 if v is not None:
                     edges.append((n, not v))
                 continue
@@ -104,6 +106,33 @@ class _KeyModel:
                     nodes.append(n)
                     break
         return nodes, edges
+
+    def _got_test(self, f, t):
+        """t tests the result of `self.possible_simple_keys.get(self.flow_level)` held in a local: True when the true edge
+        means "there is a candidate" (`k is not None`, `k`), False for `k is None` / `not k`; None otherwise."""
+        me = f.params[0] if f.params else 'self'
+        inner, pos = A.strip_not(t)
+        name, has = None, None
+        if isinstance(inner, ast.Name):
+            name, has = inner.id, True
+        elif isinstance(inner, ast.Compare) and len(inner.ops) == 1 and isinstance(inner.left, ast.Name) \
+                and isinstance(inner.comparators[0], ast.Constant) and inner.comparators[0].value is None:
+            if isinstance(inner.ops[0], ast.IsNot):
+                name, has = inner.left.id, True
+            elif isinstance(inner.ops[0], ast.Is):
+                name, has = inner.left.id, False
+        if name is None:
+            return None
+        defs = [x.value for x in walk_function(f.node) if isinstance(x, ast.Assign)
+                and any(isinstance(tg, ast.Name) and tg.id == name for tg in x.targets)]
+        if len(defs) != 1:
+            return None
+        d = defs[0]
+        if isinstance(d, ast.Call) and isinstance(d.func, ast.Attribute) and d.func.attr == 'get' \
+                and A.is_attr(d.func.value, me, 'possible_simple_keys') and d.args and A.is_attr(d.args[0], me, 'flow_level') \
+                and (len(d.args) == 1 or (isinstance(d.args[1], ast.Constant) and d.args[1].value is None)):
+            return has if pos else (not has)
+        return None
 
     def stores(self, f):
         """nodes that (may) record a new candidate for the current level."""
